@@ -23,6 +23,8 @@ let state s =
   let ts = if t = [] then "-" else String.concat "," (List.map (fun (l, o) -> zs o ^ ":" ^ zs l) t) in
   Printf.sprintf " | T=%s n=%d L=%s:%s B=%s M=%s:%s:%s:%s F=%s S=%s:%s" ts (List.length t) (zs (lfbkoff s)) (zs (lfbklen s))
     (rle (bm s)) (zs (bmoff s)) (zs (bmlen s)) (zs (hdrlen s)) (zs (bpow s)) (zs (fsize s)) (zs (crznum s)) (zs (crzsum s))
+(* what _fsm_write_meta_lw wrote last: bitmap offset/length and the allocation counters in the file header *)
+let hdr s = Printf.sprintf "H=%s:%s:%s:%s" (zs (p_bmoff s)) (zs (p_bmlen s)) (zs (p_crznum s)) (zs (p_crzsum s))
 let ovr_of = function [] -> false | x :: _ -> x = "1"
 let bits_of_hex h = bits_of_words (
   let bytes = Array.of_list (List.map int_of_z (bytes_of_hex h)) in
@@ -48,7 +50,10 @@ let handle toks =
   | ["reopen"; st; nt; mm], None ->
     (match !left with
      | None -> "?nothing-to-reopen"
-     | Some s0 -> notrim := (nt = "1"); let s = reopen s0 (st = "1") (mm = "1") in cur := Some s; "0" ^ state s)
+     | Some s0 -> notrim := (nt = "1"); let s = reopen s0 (st = "1") (mm = "1") in cur := Some s;
+       (* a header that does not name the bitmap area in use at close: the bits found there are not modelled *)
+       if hdr_current s0 then "0" ^ state s
+       else Printf.sprintf "?stale-header H=%s:%s M=%s:%s" (zs (p_bmoff s0)) (zs (p_bmlen s0)) (zs (bmoff s0)) (zs (bmlen s0)))
   | ["reopen"; _; _; _], Some _ -> "?already-open"
   | ["fnext"; h; o; m], _ ->
     let a = find_next_set_bit (bits_of_hex h) (zi o) (zi m) and b = w_find_next (words_of_hex h) (zi o) (zi m) in
@@ -57,6 +62,8 @@ let handle toks =
     let a = find_prev_set_bit (bits_of_hex h) (zi o) (zi m) and b = w_find_prev (words_of_hex h) (zi o) (zi m) in
     if a = b then optz a else "LEVELS-DISAGREE bits=" ^ optz a ^ " words=" ^ optz b
   | ["ffs"; x], _ -> zs (ffs64 (zi x)) ^ " " ^ zs (reverse64 (zi x))
+  | ["hdr"], None -> (match !left with None -> "?nothing" | Some s -> hdr s)
+  | ["hdr"], Some s -> hdr s
   | _, None -> "?closed"
   | "alloc" :: len :: hint :: fl :: rest, Some s ->
     let (((rc, s1), addr), olen) = allocate s (zi len) (zi hint) (zi fl) (ovr_of rest) in
@@ -68,6 +75,8 @@ let handle toks =
     (if rc = Z0 then Printf.sprintf "0 %s %s" (zs naddr) (zs nolen) else zs rc) ^ state s1
   | "free" :: addr :: len :: _, Some s ->
     let (rc, s1) = deallocate s (zi addr) (zi len) in cur := Some s1; zs rc ^ state s1
+  | ["sbs"; off; len; v; chk], Some s ->   (* _fsm_set_bit_status_lw, FSM_BM_DRY_RUN: the range guard and the strict probe *)
+    zs (fst (set_bit_status s (zi off) (zi len) (v <> "0") true (chk <> "0")))
   | "chk" :: addr :: len :: al :: _, Some s -> zs (check_allocation_status s (zi addr) (zi len) (al <> "0"))
   | ["w"; addr; len; _], Some s ->
     let (rc, s1) = write_op s (zi addr) (zi len) in cur := Some s1;
